@@ -121,10 +121,12 @@ let snapshot_str (c : cfg) (s : state) : string =
   end
 
 (* ---------- scenarios ---------- *)
+type item = C of call | Barrier
+
 type scenario = {
   name : string;
   fl : flavour; fut : bool; cap : int; wk : waitk;
-  scripts : (int * call list) list;
+  scripts : (int * item list) list;
   sched : (int * int) list;   (* agent, mode: 0 step, 1 spurious, 2 run the call to completion *)
   limit : int;
 }
@@ -156,7 +158,7 @@ let read_scenarios (ic : in_channel) : scenario list =
          (match !cur with Some sc -> cur := Some { sc with limit = int_of_string l } | None -> ())
        | "script" :: a :: calls ->
          (match !cur with Some sc ->
-            cur := Some { sc with scripts = sc.scripts @ [ (int_of_string a, List.map parse_call calls) ] }
+            cur := Some { sc with scripts = sc.scripts @ [ (int_of_string a, List.map (fun w -> if w = "sync" then Barrier else C (parse_call w)) calls) ] }
                         | None -> ())
        | "sched" :: toks ->
          let tok t =
@@ -175,7 +177,8 @@ let read_scenarios (ic : in_channel) : scenario list =
 (* ---------- running ---------- *)
 type runstate = {
   mutable st : state;
-  mutable scripts_left : (int * call list) list;
+  mutable seqmode : bool;
+  mutable scripts_left : (int * item list) list;
   mutable steps : int;
   mutable last : int;
   mutable isbad : bool;
@@ -183,15 +186,31 @@ type runstate = {
 
 let agent_ids (sc : scenario) = List.sort compare (List.map fst sc.scripts)
 
-let script_head rs a = match List.assoc_opt a rs.scripts_left with Some (c :: _) -> Some c | _ -> None
+let script_item rs a = match List.assoc_opt a rs.scripts_left with Some (c :: _) -> Some c | _ -> None
+let script_head rs a = match script_item rs a with Some (C c) -> Some c | _ -> None
 let pop_script rs a =
   rs.scripts_left <- List.map (fun (b, l) -> if b = a then (b, (match l with _ :: t -> t | [] -> [])) else (b, l)) rs.scripts_left
+
+(* a barrier ("sync") opens when no call is in flight and every born agent that still has calls waits at one;
+   from then on the run is sequential: one whole call at a time *)
+let release_barriers sc rs =
+  let ids = List.sort compare (List.map fst sc.scripts) in
+  let quiet = List.for_all (fun a -> match pc_of rs.st (n_of_int a) with Idle | Done -> true | _ -> false) ids in
+  if quiet then begin
+    let born a = (match pc_of rs.st (n_of_int a) with Idle -> true | _ -> false) in
+    let waiting = List.filter (fun a -> born a && script_item rs a = Some Barrier) ids in
+    let running = List.filter (fun a -> born a && (match script_item rs a with Some (C _) -> true | _ -> false)) ids in
+    if waiting <> [] && running = [] then begin
+      List.iter (fun a -> pop_script rs a) waiting;
+      rs.seqmode <- true
+    end
+  end
 
 let agent_enabled rs a =
   let na = n_of_int a in
   if is_idle rs.st na then script_head rs a <> None else can_step rs.st na
 
-let enabled_set sc rs = List.filter (agent_enabled rs) (agent_ids sc)
+let enabled_set sc rs = release_barriers sc rs; List.filter (agent_enabled rs) (agent_ids sc)
 
 (* one scheduling step of agent a; returns the events, or None if a is not enabled *)
 let do_step (c : cfg) rs (a : int) (spur : bool) : ev list option =
@@ -224,7 +243,7 @@ let mkcfg_of (sc : scenario) = mk_cfg sc.fl (n_of_int sc.cap) sc.wk
 
 let run_scenario (oc : out_channel) (sc : scenario) (verbose : bool) =
   let c = mkcfg_of sc in
-  let rs = { st = init sc.fut; scripts_left = sc.scripts; steps = 0; last = -1; isbad = false } in
+  let rs = { st = init sc.fut; seqmode = false; scripts_left = sc.scripts; steps = 0; last = -1; isbad = false } in
   Printf.fprintf oc "scenario %s\n" sc.name;
   let emit a evs =
     Printf.fprintf oc "%d %d %s\n" rs.steps a (String.concat " " (List.map ev_str evs));
@@ -235,7 +254,8 @@ let run_scenario (oc : out_channel) (sc : scenario) (verbose : bool) =
   let rec follow = function
     | [] -> ()
     | (a, mode) :: rest ->
-      if rs.isbad || rs.steps >= sc.limit then ()
+      release_barriers sc rs;
+      if rs.isbad || rs.steps >= sc.limit || rs.seqmode then ()
       else begin
         (match do_step c rs a (mode = 1) with Some evs -> emit a evs | None -> ());
         if mode = 2 then begin
@@ -255,7 +275,14 @@ let run_scenario (oc : out_channel) (sc : scenario) (verbose : bool) =
       | None -> outcome := (if List.for_all (fun a -> match pc_of rs.st (n_of_int a) with Done | Idle -> true | _ -> false)
                                 (agent_ids sc)
                             then "done" else "deadlock")
-      | Some a -> (match do_step c rs a false with Some evs -> emit a evs | None -> outcome := "stuck")
+      | Some a ->
+        (match do_step c rs a false with Some evs -> emit a evs | None -> outcome := "stuck");
+        if rs.seqmode then begin
+          let midcall () = (match pc_of rs.st (n_of_int a) with Idle | Done -> false | _ -> true) in
+          while midcall () && agent_enabled rs a && not rs.isbad && rs.steps < sc.limit do
+            (match do_step c rs a false with Some evs -> emit a evs | None -> ())
+          done
+        end
   done;
   (* summary of the ghost state for the oracles *)
   let sh = rs.st.sh in
@@ -267,10 +294,10 @@ let run_scenario (oc : out_channel) (sc : scenario) (verbose : bool) =
 let explore (oc : out_channel) (sc : scenario) (pbound : int) (maxn : int) (maxlen : int) =
   let c = mkcfg_of sc in
   let count = ref 0 in
-  let rec dfs (st : state) (scripts : (int * call list) list) (last : int) (pre : int) (acc : int list) (len : int) =
+  let rec dfs (st : state) (scripts : (int * item list) list) (last : int) (pre : int) (acc : int list) (len : int) =
     if !count >= maxn then ()
     else begin
-      let rs = { st; scripts_left = scripts; steps = 0; last; isbad = false } in
+      let rs = { st; seqmode = false; scripts_left = scripts; steps = 0; last; isbad = false } in
       let en = enabled_set sc rs in
       if en = [] || len >= maxlen then begin
         incr count;
@@ -283,14 +310,14 @@ let explore (oc : out_channel) (sc : scenario) (pbound : int) (maxn : int) (maxl
                           | WFut (a, b) -> Printf.sprintf "fut %d %d" (n_to_int a) (n_to_int b));
         Printf.fprintf oc "limit %d\n" sc.limit;
         List.iter (fun (a, calls) ->
-            Printf.fprintf oc "script %d %s\n" a (String.concat " " (List.map call_str calls))) sc.scripts;
+            Printf.fprintf oc "script %d %s\n" a (String.concat " " (List.map (function C c -> call_str c | Barrier -> "sync") calls))) sc.scripts;
         Printf.fprintf oc "sched %s\nend\n" (String.concat " " (List.map string_of_int (List.rev acc)))
       end else
         List.iter (fun a ->
             (* switching away from an agent that could continue costs one preemption *)
             let cost = if last >= 0 && a <> last && List.mem last en then 1 else 0 in
             if pre + cost <= pbound then begin
-              let rs' = { st; scripts_left = scripts; steps = 0; last; isbad = false } in
+              let rs' = { st; seqmode = false; scripts_left = scripts; steps = 0; last; isbad = false } in
               match do_step c rs' a false with
               | Some _ when not rs'.isbad -> dfs rs'.st rs'.scripts_left a (pre + cost) (a :: acc) (len + 1)
               | Some _ -> (* a bad state: emit it as a schedule of its own *)
@@ -308,7 +335,7 @@ let explore (oc : out_channel) (sc : scenario) (pbound : int) (maxn : int) (maxl
                       | WBlock (a, b) -> Printf.sprintf "block %d %d" (n_to_int a) (n_to_int b)
                       | WFut (a, b) -> Printf.sprintf "fut %d %d" (n_to_int a) (n_to_int b));
     List.iter (fun (a, calls) ->
-        Printf.fprintf oc "script %d %s\n" a (String.concat " " (List.map call_str calls))) sc.scripts;
+        Printf.fprintf oc "script %d %s\n" a (String.concat " " (List.map (function C c -> call_str c | Barrier -> "sync") calls))) sc.scripts;
     Printf.fprintf oc "sched %s\nend\n" (String.concat " " (List.map string_of_int (List.rev acc)))
   in
   dfs (init sc.fut) sc.scripts (-1) 0 [] 0
